@@ -34,6 +34,7 @@ from vf import statespace as ss
 ID = "C14"
 LEVEL = "model_checking"
 DRIVER = "vf.props.c14_events"
+RULES_DRIVER = "vf.props.c14_rules"
 
 EVENT_NAMES = [
     "tr_s1", "tr_s2", "tr_s3", "tr_x11", "tr_x18", "tr_rescript",
@@ -59,7 +60,12 @@ RULE = ("events = 19 public-API operations on shared module-level decorator/pass
         "sorted dump of rule-instance vars / Opset.cache / builder+evaluator defaults / registries / pass state / "
         "globals, depth 3 (quick) / 8 or cap (thorough). Oracle: bytes == golden bytes of the event alone in a "
         "fresh process. distinct_nontrivial = distinct (history, target) pairs + distinct (canonical state, "
-        "event) pairs + distinct (seed, event|script) pairs compared against a golden")
+        "event) pairs + distinct (seed, event|script) pairs compared against a golden; "
+        "(rules) for EVERY shipped rewrite-rule object (108, as discovered by C05) EVERY bound-0 instance of its C05 "
+        "rule space (17.8k host models) is rewritten by the shared object after whole-space histories: one chain per "
+        "rotation of the space's dimension list x {forward, backward} (every instance preceded by its neighbour along "
+        "every dimension), each chain in one forked process, compared with goldens computed in children forked from a "
+        "pristine parent; (cross) every ordered pair (A, B) of first-firing instances of different rules")
 ASSUMPTIONS = [
     "the golden of an event is its output as the first event of a fresh interpreter under PYTHONHASHSEED=0",
     "fork() gives a child an exact copy of the interpreter state (tree/bfs phases only; cross-checked per job "
@@ -145,7 +151,10 @@ def plan(tier, seed):
         json.dump(gold, f)
     chunk = cfg["seed_chunk"]
     ev_chunks = [EVENT_NAMES[i:i + chunk] for i in range(0, len(EVENT_NAMES), chunk)]
-    phases = ["bfs", "seed", "family", "hist"] + (["tree"] if cfg["tree"] else [])
+    phases = ["bfs", "seed", "family", "hist"] + (["tree"] if cfg["tree"] else []) + ["rules", "cross"]
+    rule_ids = ss.run_job(RULES_DRIVER, {"mode": "list"})["rules"]
+    nblk = 16
+    blocks = [list(range(i, len(rule_ids), nblk)) for i in range(nblk)]
     if os.environ.get("C14_PHASES"):  # development aid only
         phases = [p for p in phases if p in os.environ["C14_PHASES"].split(",")]
 
@@ -164,6 +173,12 @@ def plan(tier, seed):
             base["seed"] = ch.all("hashseed", pool["pool"])
         elif ph in ("hist", "tree"):
             base["h"] = [ch.all(f"e{i + 1}", EVENT_NAMES) for i in range(cfg["hist_depth"])]
+        elif ph == "rules":
+            base["rule"] = ch.all("rule", rule_ids)
+            base["tier"] = tier
+        elif ph == "cross":
+            base["block"] = ch.all("block", blocks)
+            base["tier"] = tier
         return base
 
     st = explore.Stats()
@@ -357,7 +372,63 @@ def _verify_event(hist):
 # ---------------------------------------------------------------------------------------------------------
 
 def execute(item):
-    return {"bfs": _ex_bfs, "seed": _ex_seed, "family": _ex_family, "hist": _ex_hist, "tree": _ex_tree}[item["kind"]](item)
+    return {"bfs": _ex_bfs, "seed": _ex_seed, "family": _ex_family, "hist": _ex_hist, "tree": _ex_tree,
+            "rules": _ex_rules, "cross": _ex_cross}[item["kind"]](item)
+
+
+def _rules_job(gold, job):
+    r = ss.run_job(RULES_DRIVER, job, hashseed=0, timeout=3600)
+    want = gold.get("tree")
+    if want and r.get("tree") and r["tree"] != want:
+        raise TreeChanged("onnxscript source files changed while C14 was running (goldens are stale): rerun")
+    return r
+
+
+def _ex_rules(item):
+    """one shipped rule object: every bound-0 instance of its C05 space after 2 x D whole-space histories"""
+    gold = _gold(item)
+    res = _rules_job(gold, {"mode": "chain", "rule": item["rule"], "tier": item.get("tier", "quick")})
+    if res.get("crashes"):
+        raise RuntimeError(f"C14 rules phase: {res['crashes']} forked children of rule {item['rule']} did not answer")
+    viols = []
+    if res.get("divergences"):
+        d0 = res["divergences"][0]
+        viols.append({"key": f"C14|rule-state|{item['rule']}", "detail": {
+            "what": "rewrite(model, [rule]) on the shared rule object gives other bytes after the history than in a "
+                    "pristine process", "first": d0, "diverging_per_order": res["orders"],
+            "more": res["divergences"][1:4]}})
+    n = res.get("instances", 0)
+    nd = sum(o.get("diverging", 0) for o in res.get("orders", []))
+    return _finish(viols, outcome=f"rules:{'diverges' if viols else ('identical' if n else 'no-instance')}",
+                   nkey=[f"r:{item['rule']}:{k}" for k in range(n)], nontrivial=bool(n),
+                   counts={"events_executed": res.get("applications", 0) + n,
+                           "extra_evaluations": max(0, res.get("applications", 0) + n - 1),
+                           "rule_instances": n, "rule_orders": len(res.get("orders", [])),
+                           "rule_applications_after_history": res.get("applications", 0),
+                           "rule_forks": res.get("forks", 0), "rule_diverging_applications": nd,
+                           "rule_distinct_goldens": res.get("golden_distinct", 0)},
+                   show=f"{item['rule']}: {n} instances x {len(res.get('orders', []))} orders, "
+                        f"{res.get('golden_distinct', 0)} distinct results, {nd} diverging")
+
+
+def _ex_cross(item):
+    """ordered pairs (A, B) of first-firing instances of different rules: A, then B in a forked grandchild"""
+    gold = _gold(item)
+    res = _rules_job(gold, {"mode": "cross", "block": item["block"], "tier": item.get("tier", "quick")})
+    if res.get("crashes"):
+        raise RuntimeError(f"C14 cross phase: {res['crashes']} forked children did not answer")
+    viols = []
+    for d in res.get("divergences", []):
+        key = f"C14|rule-cross|{d['a']}|{d['b']}"
+        if key not in [v["key"] for v in viols]:
+            viols.append({"key": key, "detail": d})
+    np_ = res.get("pairs", 0)
+    return _finish(viols, outcome=f"cross:{len(viols)}-diverging-pairs",
+                   nkey=[f"x:{a}>{k}" for a in res.get("a", []) for k in range(res.get("rules_with_firing_instance", 0))],
+                   nontrivial=bool(np_),
+                   counts={"events_executed": np_, "extra_evaluations": max(0, np_ - 1), "cross_pairs": np_,
+                           "cross_forks": res.get("forks", 0)},
+                   show=f"A in {res.get('a')} x {res.get('rules_with_firing_instance')} B: {np_} ordered pairs")
 
 
 def _finish(viols, **kw):
